@@ -158,6 +158,14 @@ let handle_jw = function
       | Some out -> id ^ " " ^ hex_of_bytes out)
   | _ -> failwith "bad JW line"
 
+(* MJ <id> <hex>: MessagePack -> JSON through the MessagePack reader model and the JSON writer model *)
+let handle_mj = function
+  | [ id; data ] ->
+      (match msgpack_to_json (bytes_of_hex data) with
+      | None -> id ^ " none"
+      | Some out -> id ^ " " ^ hex_of_bytes out)
+  | _ -> failwith "bad MJ line"
+
 let handle_md = function
   | [ id; data ] -> id ^ " " ^ if msgpack_matches utf8_valid (bytes_of_hex data) then "match" else "nomatch"
   | _ -> failwith "bad MD line"
@@ -520,6 +528,7 @@ let () =
           | "MD" :: rest -> handle_md rest
           | "JT" :: rest -> handle_jt rest
           | "JW" :: rest -> handle_jw rest
+          | "MJ" :: rest -> handle_mj rest
           | k :: _ -> failwith ("unknown case kind " ^ k)
           | [] -> ""
         in
